@@ -230,6 +230,13 @@ impl KeyboardLayout for De105Key {
                     DecodedKey::Unicode('<')
                 }
             }
+            KeyCode::NumpadPeriod => {
+                if modifiers.numlock {
+                    DecodedKey::Unicode(',')
+                } else {
+                    DecodedKey::Unicode(127.into())
+                }
+            }
             e => {
                 let us = super::Us104Key;
                 us.map_keycode(e, modifiers, handle_ctrl)
